@@ -23,6 +23,7 @@ from pyvc.engine import Engine                       # noqa: E402
 
 _REG = None
 NORECORD = False
+ONLY = None
 
 
 def registry():
@@ -185,7 +186,7 @@ def report(prop, tier, seed, results, extra, trusted, t0, rebaseline, verbose):
             problems['undecided'].append(o)
     # baseline: every obligation that was proved on the unchanged tree must still exist
     missing_names = []
-    if baseline is not None and not rebaseline:
+    if baseline is not None and not rebaseline and not ONLY:
         for n in baseline:
             if n not in names:
                 missing_names.append(n)
@@ -315,8 +316,9 @@ def main():
     ap.add_argument('-v', '--verbose', action='store_true')
     ap.add_argument('--norecord', action='store_true', help='do not write evidence/replays (scratch runs)')
     a = ap.parse_args()
-    global NORECORD
+    global NORECORD, ONLY
     NORECORD = a.norecord
+    ONLY = a.only
     seed = int(os.environ.get('VERIF_SEED', '0') or 0)
     if a.prop == 'all':
         rc = 0
